@@ -41,3 +41,9 @@ Theorem C03_model_passes_boolean_spec : forall N xs, (0 < N)%nat ->
   Signalo.Spec.C03.mean_spec_okb Mean.qquot N xs (run (Mean.step Mean.qquot N false) Mean.init xs) = true.
 Proof. exact Signalo.Proofs.Bridge.bridge_c03. Qed.
 Print Assumptions C03_model_passes_boolean_spec.
+
+(* ---- the generic (float / integer) model of the bit-exact stream, instantiated at the rationals, is the model above ---- *)
+From Signalo Require Base.Arith Model.Generic Proofs.Generic.
+Theorem C03_generic_mean : forall N s x, (let '(s', y) := Signalo.Model.Generic.g_mean_step Signalo.Base.Arith.Qar N s x in (Signalo.Proofs.Generic.mean_of s', y)) = Signalo.Model.Mean.step rdiv N false (Signalo.Proofs.Generic.mean_of s) x.
+Proof. exact Signalo.Proofs.Generic.gq_mean. Qed.
+Print Assumptions C03_generic_mean.
